@@ -24,6 +24,7 @@ EXPLANATION = (
     "that carries input molecules; (T5/T6) the text stored in a row's reaction column belongs to that row: ids used as list positions are "
     "positions of that list (rule shared with C06-B2) and no writer of the reaction column reads an attribute of a long-lived stage "
     "object that can hold a value of an earlier batch (rule shared with C06-B7)."
+    ' (T9) atom-map removal keeps every molecule (shared with C15-Rg1/Rg2).'
 )
 ASSUMPTIONS = [
     "the input contains no free [H]/[O] placeholder components (precondition of the property): whole-component filters on those literals do not touch given molecules",
